@@ -71,6 +71,31 @@ func errCheckedAndReturned(call *ssa.Call, idx int) (bool, string) {
 		if rr := vals[i].Referrers(); rr != nil {
 			for _, r := range *rr {
 				if phi, ok := r.(*ssa.Phi); ok && types.Identical(phi.Type(), vals[i].Type()) {
+					// the merge carries this error only if it cannot be replaced on the way: every
+					// other incoming edge comes from a block the call cannot reach (`err = a(); if c
+					// { err = b() }; return err` drops a's error when c holds)
+					replaced := false
+					pb0 := phi.Block()
+					var starts []*ssa.BasicBlock
+					for _, sb := range call.Block().Succs {
+						if sb != pb0 {
+							starts = append(starts, sb)
+						}
+					}
+					// ... without coming through the merge itself first (inside a loop the sibling branch is
+					// reachable again, but only after the merged value was tested)
+					reach := reachableAvoiding(starts, func(b *ssa.BasicBlock) bool { return b == pb0 })
+					for ei, e := range phi.Edges {
+						if e == vals[i] || ei >= len(phi.Block().Preds) {
+							continue
+						}
+						if pb := phi.Block().Preds[ei]; reach[pb] {
+							replaced = true
+						}
+					}
+					if replaced {
+						continue
+					}
 					dup := false
 					for _, x := range vals {
 						dup = dup || x == ssa.Value(phi)
@@ -102,7 +127,7 @@ func errCheckedAndReturned(call *ssa.Call, idx int) (bool, string) {
 						if r.Op == token.EQL {
 							leg = iff.Block().Succs[1]
 						}
-						if blockReturnsError(leg, 0) {
+						if blockReturnsError(leg, 0) || errorLegReturnsIt(iff.Block(), leg, v) {
 							// ... and nothing can leave the function successfully before that test
 							bad := pathToReturn(call, func(ret *ssa.Return) bool {
 								if len(ret.Results) == 0 {
@@ -127,6 +152,86 @@ func errCheckedAndReturned(call *ssa.Call, idx int) (bool, string) {
 		}
 	}
 	return false, "the error result is never tested"
+}
+
+// errorLegReturnsIt: path-sensitive form of blockReturnsError for the shape a spliced-in helper
+// leaves behind - the error leg does not return at once but stores the error into a result variable,
+// leaves a block, and the caller tests that variable again:
+//
+//	if err != nil { res = err; break L }  ...  if res != nil { return res }
+//
+// Walking every path from the leg, a phi takes the value of the edge the path came in on; a value
+// known to be non-nil (the tested error, and every phi that takes it on this path) decides a later
+// nil test, and returning it is returning an error. Every path must end in such a return (bounded).
+func errorLegReturnsIt(from, leg *ssa.BasicBlock, tested ssa.Value) bool {
+	steps := 0
+	var walk func(prev, b *ssa.BasicBlock, nonNil map[ssa.Value]bool, depth int) bool
+	walk = func(prev, b *ssa.BasicBlock, nonNil map[ssa.Value]bool, depth int) bool {
+		steps++
+		if depth > 24 || steps > 400 {
+			return false
+		}
+		nn := map[ssa.Value]bool{}
+		for k := range nonNil {
+			nn[k] = true
+		}
+		for pi, pb := range b.Preds {
+			if pb != prev {
+				continue
+			}
+			for _, in := range b.Instrs {
+				phi, ok := in.(*ssa.Phi)
+				if !ok {
+					break
+				}
+				if nonNil[phi.Edges[pi]] {
+					nn[phi] = true
+				} else {
+					delete(nn, phi)
+				}
+			}
+			break
+		}
+		switch t := b.Instrs[len(b.Instrs)-1].(type) {
+		case *ssa.Return:
+			if len(t.Results) == 0 {
+				return false
+			}
+			res := t.Results[len(t.Results)-1]
+			if nn[res] {
+				return true
+			}
+			for _, v := range expandValues(res) {
+				if isNilConst(v) || !certainlyAnError(v, b) {
+					return false
+				}
+			}
+			return true
+		case *ssa.Jump:
+			return walk(b, b.Succs[0], nn, depth+1)
+		case *ssa.If:
+			if bo, ok := t.Cond.(*ssa.BinOp); ok && (bo.Op == token.NEQ || bo.Op == token.EQL) {
+				var x ssa.Value
+				if isNilConst(bo.Y) {
+					x = bo.X
+				} else if isNilConst(bo.X) {
+					x = bo.Y
+				}
+				if x != nil && nn[x] {
+					if bo.Op == token.NEQ {
+						return walk(b, b.Succs[0], nn, depth+1)
+					}
+					return walk(b, b.Succs[1], nn, depth+1)
+				}
+			}
+			if b.Parent().Signature.Results().Len() == 0 {
+				return false
+			}
+			return walk(b, b.Succs[0], nn, depth+1) && walk(b, b.Succs[1], nn, depth+1)
+		}
+		return false
+	}
+	return walk(from, leg, map[ssa.Value]bool{tested: true}, 0)
 }
 
 // blockReturnsError: every path from b reaches (within a few blocks, no loops) a
